@@ -9,7 +9,8 @@ tie:    hand-written model AdeptModel/Storage.lean  <->  Storage.h add_link/remo
         Array<1>, Array<2>, active Array<1> and SpecialMatrix (symmetric, tridiagonal), slices of FixedArray.
         harness/drv_storage.cpp interprets the same histories with REAL objects and real moves
         (std::move, noinline functions taking and returning arrays by value, slices and external-memory arrays as
-        rvalues, std::vector growth, std::swap); after every step n_storage_objects(), n_gradients_registered(),
+        rvalues, std::vector growth, std::swap) and with ALLOCATION FAULTS (the data allocations of internal::alloc_aligned
+        are interposed: `failnext k` makes the k-th next one throw std::bad_alloc); after every step n_storage_objects(), n_gradients_registered(),
         storage()->n_links(), the allocation and offset every data() points at, extents, strides and all values are
         compared exactly with the model.  ASan/LSan/UBSan on.
 oracle: shadow ownership table built here from the implementation's output alone (does not use the model):
@@ -19,7 +20,8 @@ oracle: shadow ownership table built here from the implementation's output alone
         share exactly the source's allocation with the geometry re-derived here from the request, `=` leaves the
         target in place or in an unshared storage of its own with the source's values, a write only shows through
         objects of the written allocation, a request that must be rejected IS rejected with the documented exception
-        and a thrown exception changes nothing (no count, no object, no value), the final count is 0.
+        and a thrown exception changes nothing (no count, no object, no value), std::bad_alloc fires only on schedule and
+        leaves every other object untouched and the object it hit as it was or EMPTY, the final count is 0.
 """
 import os, re, json
 from concurrent.futures import ProcessPoolExecutor
@@ -27,7 +29,7 @@ import vbuild, vcheck
 
 LEVEL = "proof"
 NS = "Adept.Storage."
-REQUIRED = ["C07_inv_init", "C07_inv_step", "C07_inv_reachable", "C07_inv_meaning", "C07_freed_once", "C07_no_storage_fault", "C07_no_leak",
+REQUIRED = ["C07_failed_allocation_state", "C07_storageless_release_is_noop", "C07_inv_init", "C07_inv_step", "C07_inv_reachable", "C07_inv_meaning", "C07_freed_once", "C07_no_storage_fault", "C07_no_leak",
             "C07_gradients_exact", "C07_rejected_is_identity", "C07_rejected_op_erasable", "C07_view_ctor_rejects_first",
             "C07_shares_exactly", "C07_temporary_roundtrip", "C07_swap_exchanges", "C07_soft_external_hold_nothing",
             "C07_assign_owns", "C07_assign_no_new_alias", "C07_assign_independent"]
@@ -216,7 +218,7 @@ class O:
         return (self.alloc, self.off, self.d0, self.d1, self.s0, self.s1)
 
     def ncells(self):
-        return len(rel_cells(self.kind, self.d0, self.d1, self.s0 or 0, self.s1 or 0))
+        return len(rel_cells(self.kind, self.d0, self.d1, self.s0, self.s1))
 
     def cellmap(self):
         """absolute element index within the allocation -> value"""
@@ -230,13 +232,13 @@ class O:
 
 
 def parse(line):
-    """-> (status, n, g, {handle: O}, {ext: (live, vals)}) or None"""
+    """-> (status, n, g, f, {handle: O}, {ext: (live, vals)}) or None"""
     parts = line.split(" |")
     if len(parts) != 4 or not parts[1].startswith(" n="):
         return None
     try:
-        m = re.match(r" n=(-?\d+) g=(-?\d+)$", parts[1])
-        n, g = int(m.group(1)), int(m.group(2))
+        m = re.match(r" n=(-?\d+) g=(-?\d+) f=(\d+)$", parts[1])
+        n, g, f = int(m.group(1)), int(m.group(2)), int(m.group(3))
         objs = {}
         txt = parts[2]
         cnt = 0
@@ -246,16 +248,16 @@ def parse(line):
             o.sz = int(m.group(5)) if m.group(5) is not None else None
             o.at, o.L = m.group(6), m.group(7)
             o.d0 = int(m.group(8)); o.d1 = int(m.group(9)) if m.group(9) is not None else 0
-            o.s0 = int(m.group(10)) if m.group(10) is not None else None
-            o.s1 = int(m.group(11)) if m.group(11) is not None else (0 if o.s0 is not None else None)
+            o.s0 = int(m.group(10)) if m.group(10) is not None else 0          # no strides are printed without data
+            o.s1 = int(m.group(11)) if m.group(11) is not None else 0
             o.gi = int(m.group(12)) if m.group(12) is not None else None
             v = m.group(13)
             o.v = None if v is None else ("!" if v == "!" else [int(t) for t in v.split(",")])
             if o.at in ("0", "?"):
                 o.alloc, o.off = (None if o.at == "0" else "?"), 0
             else:
-                a, f = o.at.split("+")
-                o.alloc, o.off = a, int(f)
+                al, fo = o.at.split("+")
+                o.alloc, o.off = al, int(fo)
             objs[int(m.group(1))] = o
             cnt += 1
         if cnt != txt.count("(K="):
@@ -263,7 +265,7 @@ def parse(line):
         exts = {}
         for m in EXT_RE.finditer(parts[3]):
             exts[int(m.group(1))] = (m.group(2) == "1", [int(t) for t in m.group(3).split(",")] if m.group(3) else [])
-        return parts[0], n, g, objs, exts
+        return parts[0], n, g, f, objs, exts
     except Exception:
         return None
 
@@ -327,7 +329,8 @@ def must_throw(c, cl, a, prev):
         return "empty_array" if prev[a[1]].alloc is None else None
     if c == "sum" and a[1] in prev and a[2] in prev:
         return "size_mismatch" if prev[a[1]].d0 != prev[a[2]].d0 else None
-    if c in ("cp", "cpc", "cpm", "soft", "clr", "del", "w", "fnw", "swp", "vpush", "vpop", "fsl", "xw", "xend", "xnew", "fnew", "end") \
+    if c in ("cp", "cpc", "cpm", "soft", "clr", "del", "w", "fnw", "swp", "vpush", "vpop", "fsl", "xw", "xend", "xnew", "fnew", "end",
+             "failnext") \
             or cl[0] == "newd":
         return None
     return "?"
@@ -335,7 +338,7 @@ def must_throw(c, cl, a, prev):
 
 def oracle(hist, lines):
     """hist: ops without the leading reset; lines: implementation output for them.  -> (step, message) or None"""
-    prev_objs, prev_exts, prev_n, prev_g = {}, {}, 0, 0
+    prev_objs, prev_exts, prev_n, prev_g, prev_f = {}, {}, 0, 0, 0
     seen_labels = set()
     soft = set()          # handles that are deliberately uncounted views (soft links and what was made from them)
     for i, (op, line) in enumerate(zip(hist, lines)):
@@ -349,10 +352,38 @@ def oracle(hist, lines):
         p = parse(line)
         if p is None:
             return i, "unparsable observation %r" % line[:200]
-        status, n, g, objs, exts = p
+        status, n, g, f, objs, exts = p
         a = [int(t) for t in w[1:]]
         want = must_throw(c, cl, a, prev_objs)
-        if status.startswith("exc:"):
+        if c == "failnext":
+            if f != a[0]:
+                return i, "fault schedule not armed"
+        elif f > prev_f:
+            return i, "fault countdown went up"
+        if status == "exc:bad_alloc":
+            # an allocation failed on schedule: counts, links and every OTHER object are judged by the global rules and
+            # the frame below; the object the operation worked on is as it was or EMPTY (no data pointer, no extents, no
+            # Storage): nothing may be left pointing at data it has released (finding F-74, fixed)
+            if not (prev_f >= 1 and f == 0):
+                return i, "%s threw bad_alloc although no allocation fault was scheduled (countdown %d -> %d)" % (op, prev_f, f)
+            tg = targets_of(c, cl, a)
+            if set(objs) != set(prev_objs):
+                return i, "%s threw bad_alloc: live handles %s, before %s (a constructor that throws leaves no object)" % (
+                    op, sorted(objs), sorted(prev_objs))
+            for k, o in objs.items():
+                o0 = prev_objs[k]
+                if k in tg:
+                    blank = o.alloc is None and o.st == "-" and o.d0 == 0 and o.d1 == 0
+                    if o.struct() != o0.struct() and not blank and c != "stdswp":      # std::swap: three statements
+                        return i, ("%s threw bad_alloc and left array %d neither as it was nor empty: storage %s (it held %s), "
+                                   "data() at %s (live=%s), extents %dx%d" % (op, k, o.st, o0.st, o.at, o.L, o.d0, o.d1))
+                    if blank:
+                        soft.discard(k)
+                elif o.struct() != o0.struct() or (o.v != o0.v and "!" not in (o.v, o0.v) and not (
+                        c == "stdswp" and o.alloc in {prev_objs[t].alloc for t in tg if t in prev_objs})):
+                    # (std::swap is three statements: its first assignment may have stored before the second one failed)
+                    return i, "%s threw bad_alloc and changed array %d, which it does not name as a target" % (op, k)
+        elif status.startswith("exc:"):
             ecls = status[4:]
             allowed = ALLOWED_EXC.get(c, set())
             if cl[0] == "view":
@@ -418,11 +449,11 @@ def oracle(hist, lines):
             return i, ("n_gradients_registered()=%d but the active storages referred to by live arrays hold %d elements "
                        "(gradients not released with the data, or released twice)" % (g, sum(act.values())))
         # ---------------- frame: who may have changed structurally
-        targets = targets_of(c, cl, a) if status == "ok" or c == "stdswp" else set()
+        targets = targets_of(c, cl, a) if status in ("ok", "exc:bad_alloc") or c == "stdswp" else set()
         if c == "end":
             if objs or n != 0 or g != 0:
                 return i, "after destroying every array %d arrays / %d storages / %d gradients remain" % (len(objs), n, g)
-            prev_objs, prev_exts, prev_n, prev_g = objs, exts, n, g
+            prev_objs, prev_exts, prev_n, prev_g, prev_f = objs, exts, n, g, f
             continue
         expect_handles = set(prev_objs)
         if status == "ok" and is_create(c):
@@ -452,7 +483,7 @@ def oracle(hist, lines):
             elif o.alloc is not None and o.alloc.startswith("S") and k not in soft:
                 # only soft links (and what was made from them) may look into library storage without holding it
                 return i, "array %d has no storage yet its data() points into library storage %s (live=%s)" % (k, o.alloc, o.L)
-        prev_objs, prev_exts, prev_n, prev_g = objs, exts, n, g
+        prev_objs, prev_exts, prev_n, prev_g, prev_f = objs, exts, n, g, f
     return None
 
 
@@ -694,6 +725,7 @@ class Gen:
         self.maxpool = rng.choice([3, 4, 6, 8])
         self.kinds = kinds
         self.pbad = rng.choice([0.0, 0.1, 0.1, 0.2, 0.35])
+        self.pfault = rng.choice([0.0, 0.0, 0.0, 0.04, 0.1])     # allocation faults scheduled before a random operation
 
     def fresh(self):
         self.nk += 1
@@ -852,6 +884,9 @@ class Gen:
         r = self.r
         K, D = self.kind, self.dim
         x = r.random()
+        if K and r.random() < self.pfault:
+            self.emit("failnext %d" % r.choice([1, 1, 1, 1, 2, 3]))
+            x = r.choice([0.01, 0.5, 0.5, 0.6, 0.72, 0.74, 0.78, 0.81])     # then something that allocates
         if not K or (len(K) < 2 and x < 0.5):
             x = 0.0
         if len(K) > self.maxpool and x < 0.30:
@@ -1221,6 +1256,42 @@ def valid_views(kd):
     return out
 
 
+def allocating_ops(kd):
+    """operations on subject 1 (and source / target 2, 3 of the same kind) that allocate array data"""
+    sfx = SFX_OF[kd]
+    mk2 = {"v": "new 2 6 40", "a": "newa 2 6 40", "m": "newm 2 3 3 40", "s": "news 2 3 40", "t": "newt 2 3 40"}[kd]
+    out = [["fnrs 1 2"], ["amfresh 1 3 9"], ["amfresh 1 2 9"], [mk2, "cp 12 2", "ac 1 2"], [mk2, "cp 12 2", "am 1 2"], [mk2, "am 1 2"],
+           [mk2, "amdup 1 2"], [mk2, "amfn 1 2"], ["newd%s 3" % sfx, "ac 3 1"], ["newd%s 3" % sfx, "am 3 1"], ["newd%s 3" % sfx, "amdup 3 1"],
+           ["newd%s 3" % sfx, "amfn 3 1"], ["newd%s 3" % sfx, "stdswp 3 1"], ["newd%s 3" % sfx, "stdswp 1 3"], [mk2, "stdswp 1 2"],
+           ["new%s 3 %s" % (sfx, "2 2 5" if kd == "m" else "4 5")], ["newfn%s 3 3 5" % sfx], ["amdup 1 1"], ["ac 1 1"]]
+    if kd in "va":
+        out += [["rs 1 4 0"], ["rsi 1 2 0"], ["acsl 1 1 1 5 1"], ["amsl 1 1 0 4 1"], ["sum 3 1 1"], ["amsum 1 1 1"], [mk2, "amsum 2 1 1"],
+                ["newd%s 3" % sfx, "amsl 3 1 1 3 1"], ["newd%s 3" % sfx, "amfnvsl 3 1 1 3 1"]]
+    if kd == "v":
+        out += [["xnew 7 8 60", "amext 1 7 1 6"], ["newd 3", "xnew 7 8 60", "amextfn 3 7 1 4"], ["newd 3", "fnew 7 60", "amfix 3 7 0 2"]]
+    if kd == "m":
+        out += [["rs2 1 2 2 0"], ["rsi2 1 4 3 0"], ["newd 3", "amdiag 3 1 0"], ["newdm 3", "amtr 3 1"], ["amtr 1 1"], ["newdm 3", "amsod 3 1 0 1"]]
+    if kd in "st":
+        out += [["rs 1 2 0"], ["rsi 1 4 0"], ["rs2 1 2 2 0"], ["newd 3", "amdiag 3 1 0"], ["newd%s 3" % sfx, "amsod 3 1 0 1"]]
+    return out
+
+
+def directed_faults():
+    """every kind of subject x every operation that allocates x the 1st / 2nd next allocation failing; afterwards the
+    other referrers are written and read, the object the failure hit is cleared or destroyed FIRST (it must not give
+    back a link it no longer holds) or resized again, and everything is released"""
+    out = []
+    for kd in "vamst":
+        for sname, sp in subjects(kd).items():
+            for ops in allocating_ops(kd):
+                pre, op = ops[:-1], ops[-1]
+                for k in (1, 2):
+                    for tail in (["w 10 0 5", "del 1", "w 10 1 6", "del 3", "del 2"], ["clr 1", "clr 3", "w 10 0 5", "cp 20 10", "del 10"],
+                                 ["failnext 1", op, "rsi 1 2 0", "w 10 0 5"]):
+                        out.append(sp + pre + ["failnext %d" % k, op] + tail)
+    return out
+
+
 def result_kind(kd, req):
     fn = split_cmd(req.split()[0])[1]
     return kd if fn in ("sl", "sod") else "v" if fn in ("row", "col", "idx", "diag") else "m"
@@ -1265,6 +1336,11 @@ def directed_kinds():
 
 
 # ------------------------------------------------------------------ running
+# fresh heap memory reads 0 (as the model's): a stale object left by a failed allocation may look at elements of a
+# block that nobody ever stored (the unstored triangle of a symmetric matrix)
+IMPL_ENV = {"ASAN_OPTIONS": "detect_leaks=1:abort_on_error=0:halt_on_error=1:max_malloc_fill_size=65536:malloc_fill_byte=0"}
+
+
 def text_of(hists):
     return "".join("reset\n" + "\n".join(h) + "\nend\n" for h in hists)
 
@@ -1307,6 +1383,10 @@ def assess(h, il, rc, err):
     return bad
 
 
+STALE_RE = re.compile(r"(\d+)\(K=\w st=- nl=- at=S")
+STALE_SIGNATURE = "C07-bad-alloc-resize-stale-data"
+
+
 def op_class(c):
     cl = classify(c)
     if cl[0] == "view":
@@ -1319,13 +1399,21 @@ def work(args):
     exe, hists = args
     hists, cut, model = model_truncate(hists)
     text = text_of(hists)
-    impl_lines, rc, err = vcheck.run_impl(exe, [], text)
+    impl_lines, rc, err = vcheck.run_impl(exe, [], text, env=IMPL_ENV)
     impl = split_lines(impl_lines, hists)
     res = []
-    stats = {"cut": cut, "ops": {}, "status": {}, "rejected": {}, "kinds": {}}
+    stats = {"cut": cut, "ops": {}, "status": {}, "rejected": {}, "kinds": {}, "stale": 0, "stale_example": None}
     for h, il, ml in zip(hists, impl, model):
         hh = h + ["end"]
-        for op, l in zip(hh, il):
+        prev_unc = set()
+        for pos, (op, l) in enumerate(zip(hh, il)):
+            unc = set(STALE_RE.findall(l))
+            if l.startswith("exc:bad_alloc") and unc - prev_unc:
+                stats["stale"] += 1
+                if stats["stale_example"] is None:
+                    stats["stale_example"] = {"history": h[:pos + 1], "observation": l[:600]}
+            if " |" in l:
+                prev_unc = unc
             c = op_class(op.split()[0])
             stats["ops"][c] = stats["ops"].get(c, 0) + 1
             s = l.split(" |")[0]
@@ -1350,7 +1438,7 @@ def work(args):
 
 def run_one(exe, h):
     hh = list(h) + ["end"]
-    il, rc, err = vcheck.run_impl(exe, [], "reset\n" + "\n".join(hh) + "\n")
+    il, rc, err = vcheck.run_impl(exe, [], "reset\n" + "\n".join(hh) + "\n", env=IMPL_ENV)
     return il[1:], rc, err
 
 
@@ -1394,9 +1482,11 @@ def judge(ctx, exe, results, label):
                 il, rc, err = run_one(exe, shr)
                 bad = assess(shr, il, rc, err)
                 m2 = bad[1] if bad else msg
-                ctx.violation("%s [%s]" % (m2.split("\n")[0][:300], label),
-                              {"kind": "oracle", "history": shr, "step": bad[0] if bad else k, "message": m2, "impl": il,
-                               "sanitizer": san_summary(err) if rc else "", "original_length": len(h), "build": label})
+                rep = {"kind": "oracle", "history": shr, "step": bad[0] if bad else k, "message": m2, "impl": il,
+                       "sanitizer": san_summary(err) if rc else "", "original_length": len(h), "build": label}
+                if "threw bad_alloc and left array" in m2:
+                    rep["signature"] = STALE_SIGNATURE       # finding F-74 (fixed): reported again should it come back
+                ctx.violation("%s [%s]" % (m2.split("\n")[0][:300], label), rep)
         elif kind == "diff":
             ctx.cov["disagreements_checked"] += 1
             if len(ctx.pending) < 2:
@@ -1416,7 +1506,7 @@ def run_hists(ctx, exe, hists, label, workers):
     jobs = [(exe, hists[i:i + chunk]) for i in range(0, len(hists), chunk)]
     results = []
     agg = ctx.notes.setdefault("distribution", {"cut_at_stale_soft_link": 0, "ops": {}, "status": {}, "rejected": {},
-                                                "kinds_alive_near_end": {}})
+                                                "kinds_alive_near_end": {}, "stale_after_bad_alloc": 0})
     if workers > 1 and len(jobs) > 1:
         with ProcessPoolExecutor(max_workers=workers) as ex:
             outs = list(ex.map(work, jobs))
@@ -1425,6 +1515,9 @@ def run_hists(ctx, exe, hists, label, workers):
     for res, st in outs:
         results += res
         agg["cut_at_stale_soft_link"] += st["cut"]
+        agg["stale_after_bad_alloc"] += st["stale"]
+        if st["stale_example"] and "stale_example" not in ctx.notes:
+            ctx.notes["stale_example"] = st["stale_example"]
         for key, dst in (("ops", "ops"), ("status", "status"), ("rejected", "rejected"), ("kinds", "kinds_alive_near_end")):
             for k, v in st[key].items():
                 agg[dst][k] = agg[dst].get(k, 0) + v
@@ -1467,12 +1560,14 @@ def run(ctx, replay):
         run_hists(ctx, exe, [h], "replay", 1)
         report_pending(ctx, fails)
         return
-    nhist, maxlen = (2500, 40) if ctx.tier == "quick" else (50000, 160)
+    nhist, maxlen = (8000, 40) if ctx.tier == "quick" else (120000, 160)
     corpus = load_corpus()
     ctx.notes["corpus_cases"] = len(corpus)
     bad = run_hists(ctx, exe, corpus, "corpus", 1)
-    dm, dr, dk = directed(), directed_rejects(), directed_kinds()
-    ctx.notes["directed_cases"] = {"rank1_assign_link_release": len(dm), "rejected_requests": len(dr), "kinds_views_functions": len(dk)}
+    dm, dr, dk, df = directed(), directed_rejects(), directed_kinds(), directed_faults()
+    ctx.notes["directed_cases"] = {"rank1_assign_link_release": len(dm), "rejected_requests": len(dr), "kinds_views_functions": len(dk),
+                                   "allocation_faults": len(df)}
+    bad += run_hists(ctx, exe, df, "directed-faults", workers)
     bad += run_hists(ctx, exe, dr, "directed-rejects", workers)
     bad += run_hists(ctx, exe, dk, "directed-kinds", workers)
     bad += run_hists(ctx, exe, dm, "directed", workers)
@@ -1490,7 +1585,7 @@ def run(ctx, replay):
                        "resize requests of a random history invalid on purpose, views and soft links outliving parents, clear/resize of shared "
                        "data, self-assignment/self-link; every history ends by destroying all arrays.  non-trivial = at least two "
                        "sharing/assigning/releasing operations; distinct = different op list; see distribution.ops / .status / .rejected for "
-                       "the measured mix" % (nhist, maxlen, len(corpus), len(dm) + len(dr) + len(dk)))
+                       "the measured mix" % (nhist, maxlen, len(corpus), len(dm) + len(dr) + len(dk) + len(df)))
     ctx.cov["exhaustive"] = False
     ctx.assumptions += [
         "element type int for the passive classes (Packet<int>::size = 1: rows of Array<2> are not padded), double for the active "
@@ -1500,8 +1595,16 @@ def run(ctx, replay):
         "responsibility: histories are cut before an operation that would read or write through one (decided by the model, counted "
         "in distribution.cut_at_stale_soft_link)",
         "liveness of library memory is observed through AddressSanitizer's shadow (__asan_address_is_poisoned)",
-        "the tree carries fixes/F-01.patch and fixes/F-24.patch; without them this check reports the two defects"]
+        "the tree carries fixes/F-01.patch and fixes/F-24.patch; without them this check reports the two defects",
+        "allocation faults: internal::alloc_aligned's two allocation functions (operator new[] for int, posix_memalign for double) are "
+        "interposed in the driver; `failnext k` makes the k-th next data allocation (<= 8 KiB, made while a library operation runs) fail "
+        "once; fresh heap memory is zero-filled (ASan malloc_fill_byte=0) so that never-stored elements read the same in model and "
+        "implementation; after a failed allocation the object must be as it was or empty (finding F-74, fixed in f93fa0f; "
+        "coverage.distribution.stale_after_bad_alloc counts storage-less objects still looking into library storage after a bad_alloc "
+        "and must be 0)"]
     if ctx.pending and not ctx.violations:
         extra = [random_history(ctx.rng, maxlen) for _ in range(3000)]
         run_hists(ctx, exe, extra, "search", workers)
+    dist = ctx.notes["distribution"]
+    ctx.notes["allocation_faults_fired"] = dist["status"].get("exc:bad_alloc", 0)
     report_pending(ctx, fails)
